@@ -2,6 +2,6 @@
 # compile everything in order
 set -e
 cd /verif/coq_wip/heap
-for f in HeapP1 HeapWfb HeapP2 HeapP3 HeapP4 HeapP5 HeapP6 HeapP7 HeapP8 HeapP9 HeapP10 HeapP11 HeapP12 HeapP13 HeapP14 HeapP15 HeapP16 HeapP17 HeapP18 HeapP19 HeapP20 HeapP21 HeapP22 HeapP23 HeapP24 HeapP25 HeapEx HeapP; do
+for f in HeapP1 HeapWfb HeapP2 HeapP3 HeapP4 HeapP5 HeapP6 HeapP7 HeapP8 HeapP9 HeapP10 HeapP11 HeapP12 HeapP13 HeapP14 HeapP15 HeapP16 HeapP17 HeapP18 HeapP19 HeapP20 HeapP21 HeapP22 HeapP23 HeapP24 HeapP25 HeapEx HeapP HeapBuf HeapCor HeapShapeP; do
   if [ -f $f.v ]; then echo "== $f"; timeout 1800 coqc -Q /verif/coq MG $f.v; fi
 done
